@@ -116,6 +116,12 @@ def step (s : St) : List String → St × String
     | some b, some e =>
       ({ s with bs := { s.bs with cache := s.bs.cache.filter fun kv => kv.1 ≠ ⟨b, e⟩ } }, "ok")
     | _, _ => (s, "bad-op")
+  | ["trunc", b, e, keep] =>
+    match parseNat? b, parseNat? e, parseNat? keep with
+    | some b, some e, some keep =>
+      ({ s with bs := { s.bs with cache := s.bs.cache.map fun kv =>
+          if kv.1 = ⟨b, e⟩ then (kv.1, kv.2.take keep) else kv } }, "ok")
+    | _, _, _ => (s, "bad-op")
   | ["fsm", single, redirected, retry, script, refresh] =>
     let sts := if script = "-" then some [] else (script.splitOn ",").mapM parseStatus?
     let rf : Option (Option Bool) := match refresh with
